@@ -14,8 +14,10 @@ LEVEL = ('TABLE rules with mathematical oracles: the affine view y = a·x+b maps
          'propagates before returning Ok; bounds only tighten; bounds are only readable at decision '
          'level 0 (typestate, shared with C10). Also runs the LIFE-CYCLE BUNDLE (…L<n>): the typestate'
          ' rules over arbitrary API sequences of C10 (usable root state after every call, inert '
-         'posting in inconsistent states, entry guards, stored-solution extent). Does not decide that '
-         'root propagation is sound')
+         'posting in inconsistent states, entry guards, stored-solution extent). A negative-scale view'
+         ' exchanges exactly LowerBound and UpperBound when it registers, decided over all event sets '
+         '(V9 EVENT-FLIP TABLE). Also runs the KERNEL BUNDLE (VK<n>). Does not decide that root '
+         'propagation is sound')
 TECHNIQUE = "static analysis: path-wise symbolic table recovery + abstract sign evaluation over rustc MIR"
 
 VIEW = "AffineView"
